@@ -1474,8 +1474,10 @@ impl Relation {
                 }
                 VersionConstraint::GreaterThan => {
                     builder.token(R_ANGLE.into(), ">");
+                    builder.token(R_ANGLE.into(), ">");
                 }
                 VersionConstraint::LessThan => {
+                    builder.token(L_ANGLE.into(), "<");
                     builder.token(L_ANGLE.into(), "<");
                 }
             }
